@@ -194,8 +194,10 @@ fn run_m(t: &[&str]) -> String {
     let nt = threads.min(16);
     let (rret, rout) = if nt == 0 {
         (0, Vec::new())
-    } else if nt == 1 {
-        // with one thread the C function is, by construction, a plain one-call stream compression:
+    } else if nt == 1 && entry != "pool" {
+        // with one thread BrotliEncoderCompressMulti (and the work-pool function when given a NULL pool, which this
+        // harness never does) is, by construction, a plain one-call stream compression; with a real pool the
+        // work-pool function runs the multi-threaded machinery with one job, whose Rust equivalent is below:
         // set every parameter (a refused one is skipped), FINISH once, success iff finished
         let mut e = RustEnc::new(StandardAlloc::default());
         for (id, v) in &plist {
